@@ -148,6 +148,16 @@ type scriptedBody struct {
 	done    bool
 	closed  int
 	onEOF   func()
+	errv    error // what a tail "err" fails with (default: errInjected)
+}
+
+// rstErrors: what net/http's HTTP/2 client reports when the peer resets the stream -- a transport failure like any other
+// as far as the call's outcome goes (coded error, never success), whatever the reset code says.
+var rstNames = []string{"NO_ERROR", "CANCEL", "REFUSED_STREAM", "ENHANCE_YOUR_CALM", "INADEQUATE_SECURITY", "INTERNAL_ERROR",
+	"HTTP_1_1_REQUIRED", "STREAM_CLOSED"}
+
+func rstError(i int) error {
+	return fmt.Errorf("stream error: stream ID %d; %s; received from peer", 2*i+1, rstNames[i%len(rstNames)])
 }
 
 func (s *scriptedBody) tailErr() error {
@@ -155,6 +165,9 @@ func (s *scriptedBody) tailErr() error {
 	case "ueof":
 		return io.ErrUnexpectedEOF
 	case "err":
+		if s.errv != nil {
+			return s.errv
+		}
 		return errInjected
 	case "ctxc":
 		return context.Canceled
